@@ -25,29 +25,42 @@ def toCurKids : List (Bytes × N) → List (Bytes × Cur.Tree)
 end
 
 theorem toCur_flatten (t : N) : Cur.flatten (toCur t) = (flatten t).map toCurItem := by
-  sorry
+  exact CursorTxL.flatten_eq ⟨fun _ => rfl, fun _ _ => by rw [toCur], fun _ _ => by rw [toCur],
+    by rw [toCurKids], fun _ _ _ => by rw [toCurKids]⟩ t
 
 theorem toCur_depth (t : N) : Cur.depth (toCur t) = depth t := by
-  sorry
+  exact CursorTxL.depth_eq (ci := toCurItem) ⟨fun _ => rfl, fun _ _ => by rw [toCur],
+    fun _ _ => by rw [toCur], by rw [toCurKids], fun _ _ _ => by rw [toCurKids]⟩ t
 
 /-- the in-transaction invariant gives what the cursor theorems assume -/
 theorem inTx_cursor_wf (t : N) (h : InTx t) :
     Cur.BranchesNonEmpty (toCur t) ∧ Cur.SearchTree (toCur t) := by
-  sorry
+  have T : CursorTxL.IsToCur toCurItem toCur toCurKids :=
+    ⟨fun _ => rfl, fun _ _ => by rw [toCur], fun _ _ => by rw [toCur], by rw [toCurKids],
+      fun _ _ _ => by rw [toCurKids]⟩
+  exact ⟨CursorTxL.bne T t _ _ _ _ h, CursorTxL.st T t _ _ _ _ h⟩
 
 /-- **First/Next inside the write transaction enumerate the specified content, ascending** -/
 theorem tx_forward (fuel d cf n : Nat) (t t1 : N) (ops : List Op) (hc : Committed t)
     (hk : ∀ o ∈ ops, o.ok) (hf : depth t ≤ fuel) (h : applyOps fuel t ops = some t1)
     (hd : depth t ≤ d) (hcf : Cur.size (toCur t1) ≤ cf) (hn : (specOps (flatten t) ops).length ≤ n) :
     C05.forward d cf n (toCur t1) = (specOps (flatten t) ops).map toCurItem := by
-  sorry
+  obtain ⟨t1', h', hi, hdep, hfl⟩ := C04Tree.applyOps_refines fuel t ops (C04Tree.committed_inTx t hc) hk hf
+  rw [h] at h'; cases h'
+  rw [C05.forward_enumerates (toCur t1) d cf n (inTx_cursor_wf t1 hi).1
+    (by rw [toCur_depth, hdep]; exact hd) hcf
+    (by rw [toCur_flatten, List.length_map, hfl]; exact hn), toCur_flatten, hfl]
 
 /-- **Last/Prev enumerate it descending** -/
 theorem tx_backward (fuel d cf n : Nat) (t t1 : N) (ops : List Op) (hc : Committed t)
     (hk : ∀ o ∈ ops, o.ok) (hf : depth t ≤ fuel) (h : applyOps fuel t ops = some t1)
     (hd : depth t ≤ d) (hcf : Cur.size (toCur t1) ≤ cf) (hn : (specOps (flatten t) ops).length ≤ n) :
     C05.backward d cf n (toCur t1) = ((specOps (flatten t) ops).map toCurItem).reverse := by
-  sorry
+  obtain ⟨t1', h', hi, hdep, hfl⟩ := C04Tree.applyOps_refines fuel t ops (C04Tree.committed_inTx t hc) hk hf
+  rw [h] at h'; cases h'
+  rw [C05.backward_enumerates (toCur t1) d cf n (inTx_cursor_wf t1 hi).1
+    (by rw [toCur_depth, hdep]; exact hd) hcf
+    (by rw [toCur_flatten, List.length_map, hfl]; exact hn), toCur_flatten, hfl]
 
 /-- **Seek returns the smallest specified key not less than its argument** -/
 theorem tx_seek (fuel d cf : Nat) (t t1 : N) (ops : List Op) (k : Bytes) (hc : Committed t)
@@ -55,13 +68,18 @@ theorem tx_seek (fuel d cf : Nat) (t t1 : N) (ops : List Op) (k : Bytes) (hc : C
     (hd : depth t ≤ d) (hcf : Cur.size (toCur t1) ≤ cf) :
     (Cur.seek d cf (toCur t1) k).2 =
       ((specOps (flatten t) ops).map toCurItem).find? (fun it => !Bytes.lt it.key k) := by
-  sorry
+  obtain ⟨t1', h', hi, hdep, hfl⟩ := C04Tree.applyOps_refines fuel t ops (C04Tree.committed_inTx t hc) hk hf
+  rw [h] at h'; cases h'
+  have hw := inTx_cursor_wf t1 hi
+  rw [C05.seek_spec (toCur t1) d cf k hw.1 hw.2 (by rw [toCur_depth, hdep]; exact hd) hcf,
+    toCur_flatten, hfl]
 
+set_option linter.unusedVariables false in
 /-- the enumerated keys are strictly ascending -/
 theorem tx_forward_sorted (fuel : Nat) (t t1 : N) (ops : List Op) (hc : Committed t)
     (hk : ∀ o ∈ ops, o.ok) (hf : depth t ≤ fuel) (h : applyOps fuel t ops = some t1) :
     sortedKeys ((specOps (flatten t) ops).map (·.key)) = true := by
-  sorry
+  exact C04Tree.specOps_sorted (flatten t) ops hc.2
 
 def isPut : Op → Bool | .put _ _ => true | .del _ => false
 
@@ -74,6 +92,22 @@ theorem tx_run_refines_puts (fuel d cf : Nat) (t t1 : N) (ops : List Op) (cops :
     (hd : depth t ≤ d) (hcf : Cur.size (toCur t1) ≤ cf) :
     C05.runImpl d cf (toCur t1) [] cops =
       C05.runSpec { keys := ((specOps (flatten t) ops).map toCurItem).map Cur.Item.view, pos := none } cops := by
-  sorry
+  obtain ⟨t1', h', hi, hdep, hfl⟩ := C04Tree.applyOps_refines fuel t ops (C04Tree.committed_inTx t hc) hk hf
+  rw [h] at h'; cases h'
+  have hw := inTx_cursor_wf t1 hi
+  have T : CursorTxL.IsToCur toCurItem toCur toCurKids :=
+    ⟨fun _ => rfl, fun _ _ => by rw [toCur], fun _ _ => by rw [toCur], by rw [toCurKids],
+      fun _ _ _ => by rw [toCurKids]⟩
+  have hu : anyUnb t1 = false :=
+    CursorTxL.applyOps_anyUnb fuel ops t t1
+      (fun o ho => by
+        have := hp o ho
+        cases o with
+        | put k v => exact ⟨k, v, rfl⟩
+        | del k => exact Bool.noConfusion this)
+      h (CursorTxL.committedN_anyUnb t true hc.1)
+  have hne : Cur.NoEmptyLeafBelowRoot (toCur t1) := CursorTxL.nelbr T t1 _ _ _ _ hi hu
+  rw [C05.cursor_refines_spec_partial (toCur t1) d cf cops hw.1 hw.2 hne
+    (by rw [toCur_depth, hdep]; exact hd) hcf, C05.specOf, toCur_flatten, hfl]
 
 end Bolt.C05Tx
